@@ -232,9 +232,51 @@ pub fn run(prop: &str, tier: &str, seed: u64, out_dir: &Path, threads: usize) ->
         let (e, _s) = h.join().expect("conc worker");
         events += e;
     }
+    // C17 "randomised stress on PhysicalFS": free-running OS threads (no scheduler: the races are inside the
+    // operating-system calls, where no yield point can be placed), released together, many rounds
+    let mut stress_rounds = 0u64;
+    if prop == "C17" && std::env::var("VERIF_CFGFILTER").is_err() {
+        let targets = ["a", "a/b", "a/b/c", "a/b/c/d", "a/e", "a/b/f", "e/f"];
+        let mut out = TraceOut::new(out_dir, "lin-C17-stress");
+        out.per_file = 400;
+        let cx = Conc::new("ascii", 1);
+        for cfg in ["phys", "alt(zr/zs,phys)", "ovl(phys,phys)", "alt(zr,ovl(phys,mem))"] {
+            for round in 0..(if q { 60 } else { 1500 }) {
+                let k = 2 + (round % 3);
+                let picks: Vec<&str> = (0..k).map(|i| if round % 4 == 0 { targets[3] } else { *targets.choose(&mut rng).unwrap_or(&targets[i]) }).collect();
+                let w = make_world(cfg, &vec![], &cx, &[]);
+                let barrier = Arc::new(std::sync::Barrier::new(k));
+                let results: Vec<Vec<String>> = std::thread::scope(|sc| {
+                    let hs: Vec<_> = picks
+                        .iter()
+                        .map(|p| {
+                            let path = cx.path(&w.root, &pv(p));
+                            let b = barrier.clone();
+                            sc.spawn(move || {
+                                b.wait();
+                                match crate::obs::guard(|| path.create_dir_all()) {
+                                    Err(()) => vec!["[\"panic\"]".to_string()],
+                                    Ok(Err(e)) => vec![format!("[\"{}\"]", crate::obs::class_of(&e))],
+                                    Ok(Ok(())) => vec!["[\"ok\"]".to_string()],
+                                }
+                            })
+                        })
+                        .collect();
+                    hs.into_iter().map(|h| h.join().unwrap_or_else(|_| vec!["[\"panic\"]".to_string()])).collect()
+                });
+                let fin = crate::conc::snapshot(&w.root, &cx, &universe17);
+                let progs: Vec<Value> = picks.iter().map(|p| json!([Call::new("create_dir_all", &p.split('/').collect::<Vec<_>>(), &[]).to_json()])).collect();
+                out.begin(&json!({"ev":"hist","prop":"C17","cfg":cfg,"job":-1,"init":[],"pre_remove":[],"universe":universe17,"progs":progs,
+                    "results":parse_results(&results),"final":fin,"stuck":false,"schedule":["free-running"],"seq":[],"schedules":1,"bound":-1,"truncated":false}));
+                stress_rounds += 1;
+                events += 1;
+            }
+        }
+        out.finish();
+    }
     let tt = totals.lock().unwrap();
     json!({"cfg":"conc","mode":prop,"names":"ascii","b":1,"events":events,"segments":events,"programs":tt.0,"schedules":tt.1,"histories":tt.2,
-           "max_yield_points":tt.3,"truncated_explorations":tt.4,"edges_run":tt.1,"distinct_state_ops":tt.2,"samples":*samples.lock().unwrap()})
+           "max_yield_points":tt.3,"truncated_explorations":tt.4,"free_running_stress_rounds":stress_rounds,"edges_run":tt.1,"distinct_state_ops":tt.2,"samples":*samples.lock().unwrap()})
 }
 
 /// explore ONE program given as JSON {"cfg","init":[{p,k,d}],"pre_remove":[[..]],"progs":[[{op,p,c}]],"bound":n|-1,"prop"}
